@@ -302,6 +302,8 @@ def as_str(v):
     v = deref(v)
     if isinstance(v, RString):
         return v.s
+    if isinstance(v, Adt) and v.name == 'Cow' and len(v.fields) == 1:
+        return as_str(v.fields[0])      # an explicitly built Cow::Borrowed / Cow::Owned stands for its contents
     return v
 
 
@@ -698,6 +700,9 @@ class Machine:
             return ('item', t)
         if name.endswith('log::STATIC_MAX_LEVEL') or name == 'STATIC_MAX_LEVEL':
             return Adt('LevelFilter', 5, [])
+        mi = re.match(r'^(?:core::|std::)?(?:num::)?(?:<impl )?([iu](?:8|16|32|64|128|size))>?::(MAX|MIN)$', name)
+        if mi:
+            return INT_RANGES[mi.group(1)][1 if mi.group(2) == 'MAX' else 0]
         if name in self.const_cache:
             return self.const_cache[name]
         b = self.resolve_const(name)
@@ -738,9 +743,10 @@ class Machine:
         mq = re.match(r'<(.+?) as .+>::(.*)$', name)
         if mq:
             name = mq.group(1).split('::')[-1] + '::' + mq.group(2)
-        for nn, b in self.const_index.items():
-            if nn == name or name.endswith('::' + nn) or nn.endswith('::' + name):
-                return b
+        for cand in (name, strip_generics(name)):
+            for nn, b in self.const_index.items():
+                if nn == cand or cand.endswith('::' + nn) or nn.endswith('::' + cand):
+                    return b
         return None
 
     def _const_body(self, val):
@@ -925,7 +931,7 @@ class Machine:
             if mm:
                 argty = mm.group(1).split('::')[-1]
             b = self.find_impl(ty, m.group(3), tr, argty)
-            if b is None and re.fullmatch(r'[A-Z][A-Z0-9]{0,2}', ty) and ty not in STRUCTS and ty not in ENUMS:
+            if b is None and re.fullmatch(r'[A-Z][A-Z0-9]{0,2}|Self', ty) and ty not in STRUCTS and ty not in ENUMS:
                 return None      # a type parameter: dispatched on the runtime value (never the trait's default method)
             if b is None:
                 # a provided (default) method of a trait declared in the crate: its body is named <path>::Trait::method
@@ -965,7 +971,7 @@ class Machine:
             finally:
                 self.subst.pop()
         # generic dispatch on a type parameter (W, C, T, YI ...): resolve by the runtime value
-        m = re.match(r"<([A-Z]\w{0,2}) as ([\w:]+)(?:<.*>)?>::(\w+)$", strip_generics(callee))
+        m = re.match(r"<([A-Z]\w{0,2}|Self) as ([\w:]+)(?:<.*>)?>::(\w+)$", strip_generics(callee))
         if m and args:
             r = self.dispatch_generic(m.group(2).split('::')[-1], m.group(3), args)
             if r is not NotImplemented:
@@ -994,7 +1000,8 @@ class Machine:
 
     def dispatch_generic(self, trait, meth, args):
         v = deref(args[0])
-        tyname = v.name if isinstance(v, Adt) else 'String' if isinstance(v, RString) else 'Vec' if isinstance(v, list) else 'bool' if isinstance(v, bool) else None
+        tyname = v.name if isinstance(v, Adt) else 'String' if isinstance(v, RString) else 'Vec' if isinstance(v, list) else 'bool' if isinstance(v, bool) else \
+            'Node' if type(v).__name__ == 'XNode' else None
         if tyname is not None:
             b = self.find_impl(tyname, meth, trait)
             if b is not None:
